@@ -1867,6 +1867,23 @@ func (bc *Blockchain) AddBlock(block *block.Block) error {
 		if expectedH != block.Hash() {
 			return fmt.Errorf("invalid block: hash mismatch: expected %s, got %s", expectedH.StringLE(), block.Hash().StringLE())
 		}
+		// The header is known and verified, but the hash doesn't cover the witness.
+		if !bc.config.SkipBlockVerification {
+			hdr, err := bc.GetHeader(expectedH)
+			if err != nil {
+				return fmt.Errorf("failed to retrieve known header %d: %w", block.Index, err)
+			}
+			if !bytes.Equal(hdr.Script.InvocationScript, block.Script.InvocationScript) ||
+				!bytes.Equal(hdr.Script.VerificationScript, block.Script.VerificationScript) {
+				prev, err := bc.GetHeader(block.PrevHash)
+				if err != nil {
+					return fmt.Errorf("failed to retrieve previous header %d: %w", block.Index-1, err)
+				}
+				if err = bc.verifyHeaderWitnesses(&block.Header, prev); err != nil {
+					return fmt.Errorf("invalid block: %w", err)
+				}
+			}
+		}
 	}
 	if !bc.config.SkipBlockVerification {
 		merkle := block.ComputeMerkleRoot()
